@@ -129,8 +129,12 @@ func NewHeader(text []byte, r []*Reference) (*Header, error) {
 		if r.owner != nil || r.id >= 0 {
 			return nil, errUsedReference
 		}
+		if _, dup := bh.seenRefs[r.name]; dup {
+			return nil, errDupReference
+		}
 		r.owner = bh
 		r.id = int32(i)
+		bh.seenRefs[r.name] = r.id
 	}
 	if text != nil {
 		err = bh.UnmarshalText(text)
